@@ -139,6 +139,28 @@ macro_rules! c15_v9_count {
 c15_v9_count!(c15_v9_count_max, 65535);
 c15_v9_count!(c15_v9_count_4097, 4097);
 
+/// V9 header announcing 32 flowsets over a buffer that ends with the header: nothing is
+/// pre-allocated per announced flowset (32 x size_of::<FlowSet>() = 2.5 KB already exceeds
+/// 8 x 18 + 512 bytes),
+/// the packet is accepted with no flowsets.  (With stray bytes behind the header the second
+/// iteration of the flowset loop makes symex explore the whole decoder on a merged slice and
+/// the run does not finish; the bare header keeps every iteration trivial.)
+#[kani::proof]
+#[kani::stub(core::fmt::write, no_fmt)]
+fn c15_v9_count_32_bare() {
+    const N: usize = 18;
+    let mut b: [u8; N] = kani::any();
+    put16(&mut b, 0, 32);
+    let mut p = v9::V9Parser::default();
+    reset();
+    let r = p.parse(&b);
+    assert!(r.is_ok());
+    assert!(largest() <= 8 * N + SLACK);
+    assert!(total() <= 8 * N + SLACK);
+    core::mem::forget(r);
+    core::mem::forget(p);
+}
+
 /// V9 template flowset (id 0, length written = 4 + body) whose single template record
 /// announces `$fc` fields (written) over a body holding exactly one field.
 macro_rules! c15_v9_template_field_count {
